@@ -32,7 +32,8 @@ def _duration(ctx, what, expr):
 
 
 def gen(ctx):
-    src = vlib.read(os.path.join(vlib.REPO, SRC))
+    # integer-constant expressions folded by tools/gofold: `11 * time.Minute`, a named constant or a literal read alike
+    src = vlib.gofold(SRC)
     code = re.sub(r"//[^\n]*", "", src)
     facts = {}
     m = re.findall(r"\.Sub\(\s*(\w+)\s*\)\s*>\s*([^{\n]+?)\s*\{", code)
